@@ -221,29 +221,6 @@ __CPROVER_ensures(__CPROVER_return_value == &self->arr[(size_t)(unsigned char)c]
     props=['C06', 'C16'],
 )
 
-char_names__ctor = Fn(
-    name='utils__char_names__ctor', scope=[r'class\s+char_names\b'],
-    header=r'constexpr\s+char_names\(\)',
-    csig='void utils__char_names__ctor(struct utils__char_names* self)',
-    rules=[_S(r'(?<![\w.>])arr\b', 'self->arr', name='R4:members'), Bound(r'self->arr', ['256', '5']), _S(r'\bidx_to_char\(', 'utils__idx_to_char(', name='R2:same-namespace call'),
-           _S(r'meta::distinct_chars_count', '256', name='R9:distinct_chars_count'), _S(r'char d\[\] = \{', 'const char d[16] = {', name='R16:array size made explicit')],
-    contract=r"""
-__CPROVER_requires(__CPROVER_w_ok(self, sizeof(*self)) && g_k < 256)
-__CPROVER_assigns(*self)
-/* the name of a byte: the character itself when it is printable (33..126), otherwise \xHH with HH its value in upper-case hex, high digit first */
-__CPROVER_ensures((g_k > 32 && g_k < 127) ==> (self->arr[g_k][0] == (char)g_k && self->arr[g_k][1] == 0))
-__CPROVER_ensures(!(g_k > 32 && g_k < 127) ==> (self->arr[g_k][0] == 92 && self->arr[g_k][1] == 'x' && self->arr[g_k][2] == VX_HEXDIGIT(g_k / 16) && self->arr[g_k][3] == VX_HEXDIGIT(g_k % 16) && self->arr[g_k][4] == 0))
-""",
-    loops={0: r"""
-__CPROVER_assigns(i, *self)
-__CPROVER_loop_invariant(i <= 256 && (g_k < i ==> ((g_k > 32 && g_k < 127) ? (self->arr[g_k][0] == (char)g_k && self->arr[g_k][1] == 0)
-     : (self->arr[g_k][0] == 92 && self->arr[g_k][1] == 'x' && self->arr[g_k][2] == VX_HEXDIGIT(g_k / 16) && self->arr[g_k][3] == VX_HEXDIGIT(g_k % 16) && self->arr[g_k][4] == 0))))
-__CPROVER_decreases(256 - i)
-"""},
-    harness='void h_utils__char_names__ctor(void) { struct utils__char_names n; size_t k; g_k = k; utils__char_names__ctor(&n); }',
-    props=['C17', 'C01', 'C09', 'C16', 'C11'],
-)
-
 POST = r'''
 '''
 
@@ -255,7 +232,7 @@ bool vx_str_equal_abs(const char* a, const char* b)
 __CPROVER_requires(__CPROVER_same_object(a, vx_pool) && __CPROVER_POINTER_OFFSET(a) < 64)
 __CPROVER_ensures(__CPROVER_return_value == vx_eq[__CPROVER_POINTER_OFFSET(a)])
 __CPROVER_assigns();
-''', [char_to_idx, idx_to_char, is_printable, is_hex_digit, is_dec_digit, str_equal, find_char, str_len, find_str, char_names__name, char_names__ctor],
+''', [char_to_idx, idx_to_char, is_printable, is_hex_digit, is_dec_digit, str_equal, find_char, str_len, find_str, char_names__name],
     consts=[('uninitialized', r'constexpr\s+size_t\s+uninitialized\s*=\s*([^;]+);', None),
             ('uninitialized16', r'constexpr\s+size16_t\s+uninitialized16\s*=\s*([^;]+);', None),
             ('uninitialized32', r'constexpr\s+size32_t\s+uninitialized32\s*=\s*([^;]+);', None)],
@@ -263,21 +240,3 @@ __CPROVER_assigns();
 
 UNIT.facts = [r'char arr\[meta::distinct_chars_count\]\[name_size\] = \{\};', r'const static size_t name_size = 5;', r'constexpr size_t distinct_chars_count = distinct_values_count<char>;']
 
-from vx import native as _N
-
-
-def _twin_names(o):
-    return _N.TWIN_HEAD + r"""#include <cstring>
-int main() {
-    int bad = 0;
-    for (int v = 0; v < 256; ++v) {
-        char want[5]; const char* d = "0123456789ABCDEF";
-        if (v > 32 && v < 127) { want[0] = char(v); want[1] = 0; } else { want[0] = '\\'; want[1] = 'x'; want[2] = d[v / 16]; want[3] = d[v % 16]; want[4] = 0; }
-        const char* got = utils::c_names.name(char(v));
-        if (std::strcmp(got, want)) { if (bad < 5) std::printf("name of byte %d is '%s', documented '%s'\n", v, got, want); ++bad; }
-    }
-    return bad ? 1 : 0;
-}"""
-
-
-char_names__ctor.twin = _twin_names
